@@ -156,11 +156,11 @@ def run(ctx: Any, prog: Program) -> None:
             continue
         ctx.check('C13.Z2', rfield in wfields, vpk, w_ent.node, f'entry slot {i}: the reader stores it into FileInfo.{rfield} but the writer packs `{wsrc}`', func='VPK.write_dirfile', text=f'entry slot {i} -> {rfield}')
     term = [n for n in walk_no_nested(ld) if isinstance(n, ast.If) and ast.unparse(n.test).replace(' ', '').lower() in ('end!=0xffff', 'end!=65535') and any(isinstance(x, ast.Raise) for x in n.body)]
-    ctx.check('C13.Z2', len(term) == 1, vpk, term[0] if term else ld, 'the reader must reject an entry whose terminator is not 0xffff', func='VPK.load_dirfile', text='terminator checked')
+    ctx.shape('C13.Z2', len(term) == 1, vpk, term[0] if term else ld, 'the reader must reject an entry whose terminator is not 0xffff', func='VPK.load_dirfile', text='terminator checked')
     dai = fold.global_('DIR_ARCH_INDEX')
     r_map = any(isinstance(n, ast.If) and ast.unparse(n.test) == 'arch_ind == DIR_ARCH_INDEX' and ast.unparse(n.body[0]) == 'arch_ind = None' for n in walk_no_nested(ld))
     w_map = any(isinstance(n, ast.If) and ast.unparse(n.test) == 'info.arch_index is None' and ast.unparse(n.body[0]) == 'arch_ind = DIR_ARCH_INDEX' for n in walk_no_nested(wd))
-    ctx.check('C13.Z2', r_map and w_map and isinstance(dai, int) and dai <= 0xffff, vpk, wd, 'None <-> DIR_ARCH_INDEX must be mapped in both directions and fit the 16-bit field', func='VPK.write_dirfile', text='dir archive index mapping')
+    ctx.shape('C13.Z2', r_map and w_map and isinstance(dai, int) and dai <= 0xffff, vpk, wd, 'None <-> DIR_ARCH_INDEX must be mapped in both directions and fit the 16-bit field', func='VPK.write_dirfile', text='dir archive index mapping')
     # nesting: three nested loops on both sides, one terminator per level
     def loop_depth(fn: ast.AST) -> int:
         best = 0
@@ -230,9 +230,36 @@ def run(ctx: Any, prog: Program) -> None:
                   func=f'FileInfo.{name}', text=f'{name} placement')
     # offsets into footer_data are relative to its start: read slices footer_data[offset: offset+arch_len]
     rsrc = ast.unparse(fm['read'])
-    ctx.check('C13.Z3', 'self.vpk.footer_data[self.offset:self.offset + self.arch_len]' in rsrc, vpk, fm['read'], 'read() must slice footer_data[offset: offset+arch_len]', func='FileInfo.read', text='footer slice')
-    wsrc_ = ast.unparse(fm['write'])
-    ctx.check('C13.Z3', 'self.offset = len(self.vpk.footer_data)' in wsrc_ or 'offset' not in wsrc_, vpk, fm['write'], 'write() must place a directory-tail file at the current end of footer_data', func='FileInfo.write', text='footer offset')
+    ctx.shape('C13.Z3', 'self.vpk.footer_data[self.offset:self.offset + self.arch_len]' in rsrc, vpk, fm['read'], 'read() must slice footer_data[offset: offset+arch_len]', func='FileInfo.read', text='footer slice')
+    wfn = fm['write']
+    none_if = [n for n in ast.walk(wfn) if isinstance(n, ast.If) and ast.unparse(n.test) in ('arch_index is None', 'self.arch_index is None')]
+    if len(none_if) != 1:
+        ctx.shape('C13.Z3', False, vpk, wfn, 'directory-tail branch of write() not found', func='FileInfo.write', text='footer offset')
+    else:
+        def touches_footer(st: ast.AST) -> bool:
+            return any(isinstance(x, (ast.Assign, ast.AugAssign)) and 'footer_data' in ast.unparse(x.targets[0] if isinstance(x, ast.Assign) else x.target) for x in ast.walk(st))
+
+        def sets_offset_to_end(st: ast.AST) -> bool:
+            return any(isinstance(x, ast.Assign) and dotted(x.targets[0]) == 'self.offset' and isinstance(x.value, ast.Call) and dotted(x.value.func) == 'len' for x in ast.walk(st))
+        body = none_if[0].body
+        bad = None
+        # every arm that changes footer_data must first point self.offset at the current end of the footer
+        arms: List[List[ast.stmt]] = []
+        inner = [st for st in body if isinstance(st, ast.If)]
+        if inner:
+            for i_ in inner:
+                arms += [i_.body, i_.orelse]
+        else:
+            arms = [body]
+        pre_sets = any(sets_offset_to_end(st) for st in body if not isinstance(st, ast.If))
+        for arm in arms:
+            if any(touches_footer(st) for st in arm) and not (pre_sets or any(sets_offset_to_end(st) for st in arm)):
+                bad = arm[0]
+        if not any(touches_footer(st) for st in body):
+            ctx.shape('C13.Z3', False, vpk, none_if[0], 'the directory-tail branch never stores into footer_data', func='FileInfo.write', text='footer offset')
+        else:
+            ctx.check('C13.Z3', bad is None, vpk, bad or none_if[0], 'write() changes footer_data on a path that keeps the previous self.offset: that offset may belong to a numbered archive (or to a block other files have since been appended after), '
+                      'so other files\' bytes are overwritten or the recorded offset points at the wrong data', func='FileInfo.write', text='footer offset')
     # ---- Z4 ------------------------------------------------------------------------------------------------
     for name in ('__getitem__', '__contains__', '__delitem__', 'new_file'):
         fn = vm[name]
@@ -256,19 +283,43 @@ def run(ctx: Any, prog: Program) -> None:
         ctx.check('C13.Z4', True, vpk, splitext[0], 'os.path.splitext splits at the last dot', func='_get_file_parts', text='extension split at the last dot')
     # ---- Z5 ------------------------------------------------------------------------------------------------
     w = fm['write']
-    ok = any(isinstance(n, ast.Assign) and ast.unparse(n.value) == 'checksum(data)' for n in walk_no_nested(w)) and 'self.crc = new_checksum' in ast.unparse(w)
-    ctx.check('C13.Z5', ok, vpk, w, 'write() must store checksum(data) of the complete data', func='FileInfo.write', text='crc of full data')
+    crc_src = [n for n in walk_no_nested(w) if isinstance(n, ast.Assign) and isinstance(n.value, ast.Call) and dotted(n.value.func) == 'checksum' and len(n.value.args) == 1]
+    stores_crc = [n for n in walk_no_nested(w) if isinstance(n, ast.Assign) and dotted(n.targets[0]) == 'self.crc']
+    if len(crc_src) != 1 or len(stores_crc) != 1:
+        ctx.shape('C13.Z5', False, vpk, w, 'checksum computation / store not found', func='FileInfo.write', text='crc of full data')
+    else:
+        arg = crc_src[0].value.args[0]
+        if isinstance(arg, ast.Name) and arg.id == w.args.args[1].arg and dotted(stores_crc[0].value) == dotted(crc_src[0].targets[0]):
+            ctx.check('C13.Z5', True, vpk, crc_src[0], 'crc of the whole data', func='FileInfo.write', text='crc of full data')
+        elif isinstance(arg, ast.Subscript):
+            ctx.check('C13.Z5', False, vpk, crc_src[0], f'the stored checksum covers only `{ast.unparse(arg)}`: verify() chains the preload and the archive part, i.e. the whole file, so every file longer than that slice fails verification '
+                      '(and a change beyond it is not noticed by the same-data shortcut)', func='FileInfo.write', text='crc of full data')
+        else:
+            ctx.shape('C13.Z5', False, vpk, crc_src[0], 'checksum argument not recognised', func='FileInfo.write', text='crc of full data')
     v = fm['verify']
     vsrc = ast.unparse(v)
     ok = 'chk = checksum(self.start_data)' in vsrc and vsrc.count('chk)') + vsrc.count(', chk') >= 2 and 'return chk == self.crc' in vsrc
-    ctx.check('C13.Z5', ok, vpk, v, 'verify() must chain checksum(start_data) into the checksum of the archive part and compare with crc', func='FileInfo.verify', text='verify chains')
-    ok = 'self.start_data = data[:' in ast.unparse(w) and 'data[' in ast.unparse(w)
-    ctx.check('C13.Z5', ok, vpk, w, 'write() must split data into preload and archive part without dropping bytes', func='FileInfo.write', text='split covers data')
+    ctx.shape('C13.Z5', ok, vpk, v, 'verify() must chain checksum(start_data) into the checksum of the archive part and compare with crc', func='FileInfo.verify', text='verify chains')
+    pre = [n for n in walk_no_nested(w) if isinstance(n, ast.Assign) and dotted(n.targets[0]) == 'self.start_data' and isinstance(n.value, ast.Subscript) and isinstance(n.value.slice, ast.Slice)]
+    rest = [n for n in walk_no_nested(w) if isinstance(n, ast.Assign) and isinstance(n.value, ast.Subscript) and isinstance(n.value.slice, ast.Slice) and n.value.slice.lower is not None and n.value.slice.upper is None and dotted(n.value.value) == 'data']
+    if len(pre) != 1 or len(rest) != 1 or pre[0].value.slice.lower is not None:
+        ctx.shape('C13.Z5', False, vpk, w, 'preload / archive split not recognised', func='FileInfo.write', text='split covers data')
+    else:
+        ctx.check('C13.Z5', ast.unparse(pre[0].value.slice.upper) == ast.unparse(rest[0].value.slice.lower), vpk, rest[0], f'the preload is data[:{ast.unparse(pre[0].value.slice.upper)}] but the archive part is data[{ast.unparse(rest[0].value.slice.lower)}:]: '
+                  'bytes between the two cut points are dropped or duplicated', func='FileInfo.write', text='split covers data')
     # ---- Z6 ------------------------------------------------------------------------------------------------
-    ok = any(isinstance(n, ast.Constant) and n.value in (0xffff, 65535, 0x10000, 65536) for n in ast.walk(w))
-    ctx.check('C13.Z6', ok, vpk, w, 'the preload length is stored in a 16-bit field (<IHHIIH slot 1): write() must cap start_data at 65535 bytes (dir_limit=None or a single-file VPK '
-              'would otherwise make write_dirfile() fail for larger files)', func='FileInfo.write', text='preload bounded to 16 bits')
-
+    if len(pre) == 1 and isinstance(pre[0].value.slice.upper, ast.Name):
+        lim = pre[0].value.slice.upper.id
+        clamps = [n for n in walk_no_nested(w) if (isinstance(n, ast.If) and lim in {x.id for x in ast.walk(n.test) if isinstance(x, ast.Name)} and any(isinstance(b, ast.Assign) and dotted(b.targets[0]) == lim for b in n.body))
+                  or (isinstance(n, ast.Assign) and dotted(n.targets[0]) == lim and isinstance(n.value, ast.Call) and dotted(n.value.func) == 'min')]
+        if not clamps:
+            ctx.check('C13.Z6', False, vpk, pre[0], f'`{lim}` bounds the preload but is never clamped: with dir_limit=None (or a single-file VPK) the whole file becomes preload, and write_dirfile() cannot store a length above 65535 in the 16-bit field',
+                      func='FileInfo.write', text='preload bounded to 16 bits')
+        else:
+            consts = {c.value for n in clamps for c in ast.walk(n) if isinstance(c, ast.Constant) and isinstance(c.value, int)}
+            ctx.shape('C13.Z6', bool(consts & {0xffff, 0x10000}), vpk, clamps[0], 'clamp constant', func='FileInfo.write', text='preload bounded to 16 bits')
+    else:
+        ctx.shape('C13.Z6', False, vpk, w, 'preload slice bound not recognised', func='FileInfo.write', text='preload bounded to 16 bits')
 
 MUTANTS = [
     {'id': 'delitem_unguarded', 'file': 'vpk.py', 'find': "        self._check_writable()\n\n        path, filename, ext = _get_file_parts(item)\n\n        try:\n            folders = self._fileinfo[ext]", 'replace': "        path, filename, ext = _get_file_parts(item)\n\n        try:\n            folders = self._fileinfo[ext]", 'expect': 'C13.Z1'},
